@@ -57,12 +57,15 @@ pub struct Mix {
     pub gen: u64,
     pub prim: u64,
     pub envelope: u64,
+    /// allow containers of more than 65536 one-byte elements (affordable only where faults are not enumerated per byte)
+    pub huge: bool,
 }
 
 /// Draw a base input.
 pub fn gen_base(w: &World, r: &mut Rng, mix: Mix, proto: Option<Proto>) -> Base {
     let proto = proto.unwrap_or_else(|| pick_proto(r));
-    let knobs = Knobs::swarm(r);
+    let mut knobs = Knobs::swarm(r);
+    knobs.huge = mix.huge && r.chance(1, 10);
     let long_form = Style::new(r.chance(1, 8), r.below(14));
     let total = mix.gen + mix.prim + mix.envelope;
     let x = r.below(total);
@@ -210,7 +213,7 @@ fn fault_positions(r: &mut Rng, b: &Base, n: usize) -> Vec<usize> {
 pub fn unit_c12(w: &World, seed: u64, unit: u64, tier: Tier) -> Vec<Case> {
     let prop = "C12";
     let mut r = Rng::derive(seed, &[prop_tag(prop), unit]);
-    let b = gen_base(w, &mut r, Mix { gen: 50, prim: 40, envelope: 10 }, None);
+    let b = gen_base(w, &mut r, Mix { gen: 50, prim: 40, envelope: 10, huge: true }, None);
     let mut out: Vec<Case> = vec![];
     let len = b.bytes.len();
     let mut vb = b.bytes.clone();
@@ -226,7 +229,10 @@ pub fn unit_c12(w: &World, seed: u64, unit: u64, tier: Tier) -> Vec<Case> {
         c
     };
     out.push(valid(Schedule::whole(), "sched_whole"));
-    out.push(valid(Schedule::bytewise(), "sched_bytewise"));
+    // (one byte at a time costs a poll per byte: not for the rare messages of tens of kilobytes)
+    if len <= 20_000 {
+        out.push(valid(Schedule::bytewise(), "sched_bytewise"));
+    }
     {
         // the message alone, nothing after it (end of stream right at the message end)
         let mut c = mk_case(prop, &b, unit);
@@ -396,6 +402,36 @@ pub fn unit_c07(w: &World, seed: u64, unit: u64, tier: Tier) -> Vec<Case> {
             c.run_stream = false;
             c.fault_kind = "skip_unchecked".into();
             out.push(c);
+        }
+        // the same skips right after a refused one: the enclosing struct again, with the type byte of its
+        // deepest nested field header made invalid (the reader stops there, inside open containers)
+        // (compact: the field header byte; binary: the type byte that starts a field header)
+        let hdr_kind = if proto == Proto::Compact { SpanKind::FieldHdr } else { SpanKind::Type };
+        if let Some(sp) = se.spans.iter().filter(|x| x.kind == hdr_kind && x.depth >= 1 && x.end == x.start + 1).max_by_key(|x| x.depth) {
+            let mut poison = se.out.clone();
+            match proto {
+                Proto::Compact => poison[sp.start] = (poison[sp.start] & 0xF0) | 0x0E,
+                _ => poison[sp.start] = 0x05,
+            }
+            let mut c = mk_case(prop, &fbase, unit);
+            c.bytes = svb.clone();
+            c.valid_len = Some(slen);
+            c.expect = Some(expect.clone());
+            c.sched = Schedule::whole();
+            c.prior = Some(poison.clone());
+            c.fault_kind = "skip_field_after_refused".into();
+            out.push(c);
+            if proto == Proto::Binary {
+                let mut c = mk_case(prop, &fbase, unit);
+                c.level = Level::SkipUnchecked;
+                c.bytes = se.out.clone();
+                c.valid_len = Some(slen);
+                c.expect = Some(expect.clone());
+                c.run_stream = false;
+                c.prior = Some(poison);
+                c.fault_kind = "skip_unchecked_after_refused".into();
+                out.push(c);
+            }
         }
     } else if flavour < 9 {
         // depth band: nest 1..80
@@ -799,6 +835,27 @@ pub fn unit_c09(w: &World, seed: u64, unit: u64, tier: Tier) -> Vec<Case> {
                 out.push(c);
             }
         }
+        // a value of every kind of leaf just beyond the skip limit, as an unknown field of a generated
+        // type and on its own: the refusal itself (its message names the type it stopped at) must be an error
+        for _ in 0..4 {
+            let dd = r.range(65, 67) as usize;
+            let tv = leaf_chain(&mut r, dd);
+            let st = TV::Struct(vec![(9999, tv.clone())]);
+            let e = encode_value(proto, &st, Style::default());
+            for lv in [Level::Gen("Leaf".into()), Level::Gen("rt::ApplicationException".into()), Level::Skip(T_STRUCT)] {
+                let base = Base { proto, level: lv, bytes: e.out.clone(), spans: vec![], note: format!("leafchain{}", dd), tv: None, conforming: false };
+                for stream in [false, true] {
+                    let mut c = mk_case(prop, &base, unit);
+                    c.bytes = e.out.clone();
+                    c.run_mem = !stream;
+                    c.run_stream = stream;
+                    c.sched = if stream { Schedule::random(&mut r, e.out.len(), ppct) } else { Schedule::whole() };
+                    c.fault = format!("leafchain{}", dd);
+                    c.fault_kind = "nesting_over_limit".into();
+                    out.push(c);
+                }
+            }
+        }
         // container-of-container bombs (headers only): lists, sets and map values all the way down, in
         // every protocol, at the drawn depth and at 60 000 levels (a recursive skipper that forgets to
         // count a level needs that many to run out of a 2 MiB stack)
@@ -835,7 +892,7 @@ pub fn unit_c09(w: &World, seed: u64, unit: u64, tier: Tier) -> Vec<Case> {
             }
         }
     } else {
-        let b = gen_base(w, &mut r, Mix { gen: 60, prim: 30, envelope: 10 }, None);
+        let b = gen_base(w, &mut r, Mix { gen: 60, prim: 30, envelope: 10, huge: false }, None);
         let mut faults = enumerate_faults(&mut r, &b, tier, true);
         faults.extend(random_bytes_cases(&mut r));
         // the unfaulted message itself, too
@@ -910,7 +967,7 @@ pub fn unit_c19(w: &World, seed: u64, unit: u64, tier: Tier) -> Vec<Case> {
         return out;
     }
     let proto = *r.pick(&[Proto::Binary, Proto::Compact, Proto::Binary, Proto::Compact, Proto::BinaryLE]);
-    let b = gen_base(w, &mut r, Mix { gen: 90, prim: 10, envelope: 0 }, Some(proto));
+    let b = gen_base(w, &mut r, Mix { gen: 90, prim: 10, envelope: 0, huge: false }, Some(proto));
     let faults = enumerate_faults(&mut r, &b, tier, true);
     for f in faults {
         let mut c = mk_case(prop, &b, unit);
